@@ -1,0 +1,10 @@
+//go:build verif
+// +build verif
+
+package css_parser
+
+// Exports for the /verif correspondence harness (build tag "verif" only). Add-only.
+
+func VerifCompactHex(v uint32) uint32          { return compactHex(v) }
+func VerifExpandHex(v uint32) uint32           { return expandHex(v) }
+func VerifParseHex(text string) (uint32, bool) { return parseHex(text) }
